@@ -739,9 +739,14 @@ u_tunnel(uint64_t idx, void *arg)
         } else {
             ByteBuffer ch[3];
             size_t a = len / 3, b2 = len / 2;
-            byte_buffer_use(&ch[0], mem, a);
-            byte_buffer_use(&ch[1], mem + a, b2 - a);
-            byte_buffer_use(&ch[2], mem + b2, len - b2);
+            /* (a chunk may be empty: byte_buffer_use() refuses size 0, so the chunks are written directly) */
+            static unsigned char nothing[1];
+            const size_t cl[3] = { a, b2 - a, len - b2 };
+            unsigned char *const cp[3] = { mem, mem + a, mem + b2 };
+            for (int ci = 0; ci < 3; ci++) {
+                const ByteBuffer t = BYTE_BUFFER_INIT(cl[ci] ? cp[ci] : nothing, cl[ci] ? cl[ci] : 1, cl[ci], 0);
+                ch[ci] = t;
+            }
             ByteChunks bc = { .chunks = 3, .active = 0, .chunk = ch };
             rc = LP(chunks_to_sink, k, &tun, &bc);
         }
